@@ -84,7 +84,22 @@ def strategy(tier):
         return {'spec': spec, 'ops': ops,
                 'keysB': {s['name']: k for s, k in zip(spec['states'], keys)},
                 'permB': list(perm), 'contracts': True, 'cv_false': false}
-    return st.one_of(cases(), cases(), histories_over_orthogonal(), with_failing_contracts())
+    @st.composite
+    def competing(draw):
+        # dense competition (few event names, several transitions per source, orthogonal roots):
+        # many steps are rejected, and WHICH error is raised must not depend on the order either
+        spec = draw(gen.charts(max_states=14 if big else 11, mix=MIX, n_events=2, min_tr=8,
+                               max_tr=16, p_orth_root=0.5, orth_weight=4, p_eventless=0.1,
+                               dup_tr=0.3))
+        ops = draw(gen.histories(spec, 5, 14, n_events=2, p_all=0.6, p_none=0.05))
+        n = len(spec['states'])
+        keys = draw(st.lists(st.integers(0, 1000), min_size=n, max_size=n, unique=True))
+        perm = draw(st.permutations(list(range(len(spec['transitions'])))))
+        return {'spec': spec, 'ops': ops,
+                'keysB': {s['name']: k for s, k in zip(spec['states'], keys)},
+                'permB': list(perm)}
+    return st.one_of(cases(), cases(), histories_over_orthogonal(), with_failing_contracts(),
+                     competing())
 
 
 def run_sig(spec, sc, ops, contracts=False, cv_false=()):
